@@ -354,7 +354,8 @@ func TestC06(t *testing.T) {
 			t0 := ticksNow()
 			for i := 0; i < nW; i++ {
 				mi := glist[r.Intn(len(glist))]
-				s, _ := validFrame(r, mi, 2, 0, false, nil)
+				// already encoded messages come in every payload form (canonical, untruncated, partly truncated: zero tails)
+				s, _ := validFrame(r, mi, 2, r.Intn(3), false, nil)
 				var m message.Message = &message.MessageRaw{ID: s.MsgID, Payload: s.Payload}
 				if i%2 == 0 {
 					v, _ := mi.Layout.Decode(s.Payload, true)
@@ -414,9 +415,13 @@ func TestC06(t *testing.T) {
 			nN := vh.Pick(200, 5000)
 			for i := 0; i < nN; i++ {
 				mi := glist[r.Intn(len(glist))]
-				s, _ := validFrame(r, mi, 2, 0, false, nil)
+				s, _ := validFrame(r, mi, 2, r.Intn(3), false, nil)
 				v, _ := mi.Layout.Decode(s.Payload, true)
-				_ = node.WriteMessageAll(v.Interface().(message.Message))
+				if i%3 == 1 {
+					_ = node.WriteMessageAll(&message.MessageRaw{ID: s.MsgID, Payload: s.Payload}) // already encoded, possibly with a zero tail
+				} else {
+					_ = node.WriteMessageAll(v.Interface().(message.Message))
+				}
 				if i%32 == 31 { // flow control: stay below the 64-item queue
 					tr[0].WaitWrites(i+1, 2*time.Second)
 					tr[1].WaitWrites(i+1, 2*time.Second)
